@@ -37,6 +37,9 @@ def tasks(tier):
         vi('fxp_op', dict(l=5, f=2, op=op, flags=(None, None)), f'mpyc.runtime.Runtime({op})', '(l,f)=(5,2)')
     for src, dst in ((('int', 6), ('fxp', 8, 2)), (('fxp', 8, 2), ('int', 6)), (('fxp', 6, 2), ('fxp', 8, 4)), (('fxp', 8, 4), ('fxp', 6, 2))):
         T.append(('sx.tasks', 'run_instance', ('sx.fxp', 'convert', dict(src=src, dst=dst), dict(k=2, no_prss=False), 'mpyc.runtime.Runtime._convert', f'{src}->{dst}')))
+    # longer lists with individually marked elements (the internal bookkeeping of prod over its binary tree): bounded native
+    from contracts import runtime_native as RN
+    T += RN.tasks(tier, 'C03')
     return T
 
 
